@@ -142,10 +142,16 @@ def gen_code(model):
     o = ["// generated by lib/recordgen.py: helpers over every data member of the record classes",
          "#ifndef RECORDS_GEN_H", "#define RECORDS_GEN_H",
          "int __CPROVER_uninterpreted_remap(int);",
-         "static void vu_havoc_string(std::string &s) { s._n = nondet_size_t(); __CPROVER_assume(s._n <= std::string::CAP);",
+         "// Lengths: with g_vu_shape < 0 every string length / list size is symbolic (0..CAP).  With a shape >= 0 they are",
+         "// CONCRETE (contents stay symbolic): shape 0 = all empty, 1 = all at capacity, s >= 2 = (ordinal + s) mod (CAP+1),",
+         "// so that over shapes 2..CAP+2 every variable-length member takes every length next to varying neighbours.",
+         "static int g_vu_shape = -1; static unsigned g_vu_k = 0;",
+         "static size_t vu_len(size_t cap) { unsigned k = g_vu_k++; if (g_vu_shape < 0) { size_t n = nondet_size_t(); __CPROVER_assume(n <= cap); return n; }",
+         "  if (g_vu_shape == 0) return 0; if (g_vu_shape == 1) return cap; return (k + (unsigned)g_vu_shape) % (cap + 1); }",
+         "static void vu_havoc_string(std::string &s) { s._n = vu_len(std::string::CAP);",
          "  for (size_t i = 0; i < std::string::CAP; i++) { char c = nondet_char(); s._d[i] = (i < s._n) ? c : (char)0; } s._d[std::string::CAP] = 0; }",
-         "static void vu_havoc_intvec(std::vector<int> &v) { v._n = nondet_size_t(); __CPROVER_assume(v._n <= std::vector<int>::CAP); for (size_t i = 0; i < std::vector<int>::CAP; i++) v._d[i] = nondet_int(); }",
-         "static void vu_havoc_strvec(std::vector<std::string> &v) { v._n = nondet_size_t(); __CPROVER_assume(v._n <= std::vector<std::string>::CAP); for (size_t i = 0; i < std::vector<std::string>::CAP; i++) vu_havoc_string(v._d[i]); }",
+         "static void vu_havoc_intvec(std::vector<int> &v) { v._n = vu_len(std::vector<int>::CAP); for (size_t i = 0; i < std::vector<int>::CAP; i++) v._d[i] = nondet_int(); }",
+         "static void vu_havoc_strvec(std::vector<std::string> &v) { v._n = vu_len(std::vector<std::string>::CAP); for (size_t i = 0; i < std::vector<std::string>::CAP; i++) vu_havoc_string(v._d[i]); }",
          ""]
     order = [c for c, _, n in CLASSES if n] + [c for c, _, n in CLASSES if not n]
     def fields(c):
@@ -172,7 +178,7 @@ def gen_code(model):
                 o.append("  vu_havoc_strvec(o.%s);" % name)
             elif kind == "CV":
                 e = outer + "_" + arg
-                o.append("  o.%s._n = nondet_size_t(); __CPROVER_assume(o.%s._n <= std::vector<%s::%s>::CAP);" % (name, name, outer, arg))
+                o.append("  o.%s._n = vu_len(std::vector<%s::%s>::CAP);" % (name, outer, arg))
                 o.append("  for (size_t i = 0; i < std::vector<%s::%s>::CAP; i++) havoc_%s(o.%s._d[i]);" % (outer, arg, e, name))
             elif kind == "PT":
                 o.append("  o.%s = 0;" % name)
